@@ -165,7 +165,8 @@ partial def parseVal : List String → Option (GoVal × List String)
       | _ => none
     | 'C' => (parseClassTok t).map fun (m, n) => (.cls m n, rest)
     | 'l' => (parseSeq rest []).map fun (xs, r) => (.list xs, r)
-    | 't' => (parseSeq rest []).map fun (xs, r) => (.tuple xs, r)
+    | 't' => if t == "t0" then some (.tuple [], rest)    -- the empty tuple held as a nil slice: the same value
+             else (parseSeq rest []).map fun (xs, r) => (.tuple xs, r)
     | 'm' => (parseSeq rest []).bind fun (xs, r) => (pairUp xs).map fun kvs => (.map kvs, r)
     | 'd' => (parseSeq rest []).bind fun (xs, r) => (pairUp xs).map fun kvs => (.dict kvs, r)
     | 'c' => match rest with
